@@ -53,13 +53,17 @@ def layout(top: Path, parent: str) -> Path:
     (top / "else").mkdir(exist_ok=True)
     (top / "co" / ".git").mkdir(parents=True, exist_ok=True)
     (top / "co" / "work").mkdir(exist_ok=True)
+    # another project: its root carries its own ignore file, which hides every source file of ITS tree
+    (top / "other" / ".git").mkdir(parents=True, exist_ok=True)
+    (top / "other" / ".thailintignore").write_text("*.py\n*.ts\n*.rs\n*.js\n")
+    (top / "other" / ".thailint.yaml").write_text("nesting:\n  enabled: false\n")
     return proj
 
 
 def placement(top: Path, parent: str, cwd: str, spelling: str) -> tuple[Path, str]:
     proj = top / parent / "proj"
     cw = {"root": proj, "parent": top / parent, "inside": proj / "sub", "else": top / "else",
-          "checkout": top / "co" / "work"}[cwd]
+          "checkout": top / "co" / "work", "other": top / "other"}[cwd]
     if spelling == "absolute":
         tgt = str(proj)
     elif spelling == "dot":
@@ -75,7 +79,7 @@ def placement(top: Path, parent: str, cwd: str, spelling: str) -> tuple[Path, st
         tgt = [str(proj), rel]
     else:  # dotdot
         tgt = {"root": f"../../{parent}/proj", "inside": "..", "else": f"../{parent}/proj",
-               "checkout": f"../../{parent}/proj"}[cwd]
+               "checkout": f"../../{parent}/proj", "other": f"../{parent}/proj"}[cwd]
     return cw, tgt
 
 
